@@ -5,6 +5,7 @@ import (
 	"encoding/json"
 	"errors"
 	"fmt"
+	"math"
 	"regexp"
 	"strconv"
 	"time"
@@ -57,6 +58,11 @@ func (f *indexedField) String() string {
 	return fmt.Sprintf("(%v, %d)", f.Value, f.ObjectId)
 }
 
+var (
+	minUnixNanoTime = time.Unix(0, math.MinInt64)
+	maxUnixNanoTime = time.Unix(0, math.MaxInt64)
+)
+
 func searchField(value interface{}) (k *indexedField, err error) {
 	return newIndexedField(value, 0)
 }
@@ -84,7 +90,18 @@ func newIndexedField(value interface{}, objid uint64) (*indexedField, error) {
 	case float32:
 		value = float64(k)
 	case time.Time:
-		value = k.UTC().UnixNano()
+		// UnixNano is not defined beyond the years 1678 and 2262 (it wraps:
+		// the zero Time would sort after 1754): such times get the nearest
+		// value which can be represented, they still sort on the right
+		// side of every time which can
+		switch {
+		case k.Before(minUnixNanoTime):
+			value = int64(math.MinInt64)
+		case k.After(maxUnixNanoTime):
+			value = int64(math.MaxInt64)
+		default:
+			value = k.UTC().UnixNano()
+		}
 	case string:
 		// what is compared is what the files hold: encoding/json writes
 		// the replacement character for every byte which is not valid
